@@ -11,7 +11,7 @@ NOTES = ("All checks are static: they parse /repo's current working tree and nev
          "rule instances hold; exit 1 + VIOLATION line = a recognised construct contradicts a rule; exit 2 + "
          "ANALYSIS-ERROR = an anchor vanished or a decisive construct could not be interpreted (never a pass). "
          "Genuine defects found on the pinned tree were repaired by `fix:` commits in /repo and are recorded in "
-         "known_findings.json as fixed; defects that could not be repaired safely are listed there as known.")
+         "known_findings.json as fixed; defects that could not be repaired safely are listed there as known. The thorough tier also re-applies every self-test variant to the current tree (checker controls); a failing control is exit 2 on the tree the controls were validated on (selftest/validated_tree.json) and a note on any other tree.")
 
 CHECKS = {
     "C06": ("exception-escape analysis: listener raise-on-all-paths, handler census, error-count gate, ATN EOF anchor",
@@ -19,36 +19,36 @@ CHECKS = {
             "the generated rule handlers cannot swallow (or the parse is gated on the syntax-error count), no except handler "
             "for a pipeline error type finishes without raising, output is produced only after process() returned, the entry "
             "rule is EOF-anchored, exit statuses are non-zero. Decides the escalation structure, not which inputs the lexer rejects "
-            "(that is C05's token-language rule). Also: listeners are attached before any token is pulled, and process() cannot return before the entry-rule parse (must-pass-through); statements are followed through private helpers. Round 3: no break/continue/return inside finally; super() delegation of listeners is followed. Rounds 4-5: census of error strategies assigned to a recognizer (report*/recover must reach notifyErrorListeners); no freshness shortcut before the parse. Round 6: the processing functions are only called directly, never handed to a pool/thread/callback.", "DESIGN.md 5/C06"),
+            "(that is C05's token-language rule). Also: listeners are attached before any token is pulled, and process() cannot return before the entry-rule parse (must-pass-through); statements are followed through private helpers. Round 3: no break/continue/return inside finally; super() delegation of listeners is followed. Rounds 4-5: census of error strategies assigned to a recognizer (report*/recover must reach notifyErrorListeners); no freshness shortcut before the parse. Round 6: the processing functions are only called directly, never handed to a pool/thread/callback. Round 7: hand-written subclasses of the generated recognizers leave the error plumbing alone (or call super()).", "DESIGN.md 5/C06"),
     "C13": ("write-site census + guard dominance + path-term evaluation + loop/predicate rules on document()",
             "Structural: every file-system write site of the package is enumerated, dominated by 'output directory set' and rooted "
             "at it; the page path term is join(output, dirname(relpath), stem+'.rst') on every abstract path; recursion cut-off, "
             "filter pipeline (no mutation while iterating, in-place pruning, equal predicates, same filtered+sorted list) and per-file "
-            "isolation hold. Not decided: pathspec semantics, case-sensitive auto-exclusion pre-check. Also: toctree stem = page stem; filtering by rebinding the walk list is rejected; nothing is created before the walk lists the tree; the index write is conditional on the output directory only. All rules read the helper-inlined, canonicalised AST. Rounds 3-5: the output directory is resolved against the cwd of the run or the config file (C13-R8), all match sites use the one compiled spec with a trailing separator for directories (C13-R9), no decision in the walk depends on the output directory (C13-R10). Round 6: the parent's probe and the directory's own 'has a CMake file' check agree (C13-R11).", "DESIGN.md 5/C13"),
+            "isolation hold. Not decided: pathspec semantics, case-sensitive auto-exclusion pre-check. Also: toctree stem = page stem; filtering by rebinding the walk list is rejected; nothing is created before the walk lists the tree; the index write is conditional on the output directory only. All rules read the helper-inlined, canonicalised AST. Rounds 3-5: the output directory is resolved against the cwd of the run or the config file (C13-R8), all match sites use the one compiled spec with a trailing separator for directories (C13-R9), no decision in the walk depends on the output directory (C13-R10). Round 6: the parent's probe and the directory's own 'has a CMake file' check agree (C13-R11). Round 7: no CLI default shadows input.recursive; known finding F19 (index.cmake takes the place of the directory index).", "DESIGN.md 5/C13"),
     "C14": ("same-source / predicate-agreement / filter-agreement rules on the index block of document()",
             "Structural necessary conditions for closure: toctree entries and page production iterate the same exclusion-filtered, "
             "sorted lists with equal predicates; subdirectory entries come from the pruned list and only under `recursive`; both "
-            "'has a CMake file' checks see the filtered view; the top-directory test compares with '.'; options precede entries. Also: a toctree file entry is the same function of the file name as the page name (stem agreement); the index write has no further guard; settings are deep-copied per input. Rounds 4-5: page production not inside a swallowing handler; only the recursion switch and the exclusion match may empty or filter the walk's directory list. Round 6: sub-directory match sites (trailing separator); symlinked sub-directories are pruned unless the walk follows links (F18, fixed).",
+            "'has a CMake file' checks see the filtered view; the top-directory test compares with '.'; options precede entries. Also: a toctree file entry is the same function of the file name as the page name (stem agreement); the index write has no further guard; settings are deep-copied per input. Rounds 4-5: page production not inside a swallowing handler; only the recursion switch and the exclusion match may empty or filter the walk's directory list. Round 6: sub-directory match sites (trailing separator); symlinked sub-directories are pruned unless the walk follows links (F18, fixed). Round 7: index titles use the configured separator; known finding F19.",
             "DESIGN.md 5/C14"),
     "C15": ("loop-mutation lint, os.walk pruning typestate, match-site census, early-return dominance",
             "All loops of the package: no list is mutated while iterated; pruning acts in place on the list os.walk yielded, "
             "top-down, before any rebinding; input path, each subdirectory (trailing separator) and each file are matched against "
-            "the one spec compiled from all sources; the early return precedes every effect; the input path is matched in absolute form with a trailing separator for directories (forward dataflow over the prefix of document()); os.walk starts at that absolute path; -e patterns enter the list unconverted. Not decided: gitignore semantics of pathspec. Rounds 4-5: the match is the only condition of a removal, exclusion loops are not nested under a switch, the input path is not symlink-resolved. Round 6: the auto-exclusion probe sees every file of the directory through the exclusion filter.",
+            "the one spec compiled from all sources; the early return precedes every effect; the input path is matched in absolute form with a trailing separator for directories (forward dataflow over the prefix of document()); os.walk starts at that absolute path; -e patterns enter the list unconverted. Not decided: gitignore semantics of pathspec. Rounds 4-5: the match is the only condition of a removal, exclusion loops are not nested under a switch, the input path is not symlink-resolved. Round 6: the auto-exclusion probe sees every file of the directory through the exclusion filter. Round 7: the sub-directory path is joined, not concatenated (the first walk root already ends in a separator).",
             "DESIGN.md 5/C15"),
     "C17": ("taint dataflow (ABS/ORDER/ENV labels) to content sinks + shared-state effect analysis",
             "All flows in cminx/__init__.py and Documenter.__init__: no value derived from an absolute location, an unsorted "
             "listing, time/random/hash/env reaches a title, module name, toctree entry, printed page or the order of page "
             "production; settings are deep-copied per input, never written through; no module/class-level state or shared "
-            "default-argument object is mutated on the processing path. A keyed (hence tie-preserving) sort does not remove the ORDER label. Package-wide: no order-sensitive consumer of a set (positive control), no absolute location interpreted as glob/fnmatch/regex pattern, walk root absolute. Rounds 4-5: RES/ENV labels (realpath, getcwd); in-place writes to class-level lists are shared state; a page is produced from the file on every call. Round 6: no removal/skip decision over an unsorted listing reads state the same loop accumulates (positive control).", "DESIGN.md 5/C17"),
+            "default-argument object is mutated on the processing path. A keyed (hence tie-preserving) sort does not remove the ORDER label. Package-wide: no order-sensitive consumer of a set (positive control), no absolute location interpreted as glob/fnmatch/regex pattern, walk root absolute. Rounds 4-5: RES/ENV labels (realpath, getcwd); in-place writes to class-level lists are shared state; a page is produced from the file on every call. Round 6: no removal/skip decision over an unsorted listing reads state the same loop accumulates (positive control). Round 7: without -r the walk ends with the input directory on every path (F20, fixed); auto-exclusion probe independent of listing order; link test independent of the tree's location.", "DESIGN.md 5/C17"),
     "C18": ("write-site census with guard dominance and rooting, deletion-call census with positive control, stdout/file branch terms",
             "All call sites: every creator is dominated by 'output directory is not None' and writes below it, the package contains "
             "no deletion/rename call, the stdout branch prints exactly str(writer)+'\\n' of the processed page and touches no file, "
-            "index writers are never printed, info-level logging is guarded by output mode. Also: the output directory is resolved against the cwd of the run (or the config file), and pages of a directory are produced in sorted order; -o outranks the -s file (source order); no pruning, skip or page production inside the walk is conditional on the output directory. Rounds 3-4: the index is written before the pages of its directory; info-level logging census over the whole pipeline. Round 6: the file of -o mode holds exactly what stdout mode prints (write_to_file writes str(self)).", "DESIGN.md 5/C18"),
+            "index writers are never printed, info-level logging is guarded by output mode. Also: the output directory is resolved against the cwd of the run (or the config file), and pages of a directory are produced in sorted order; -o outranks the -s file (source order); no pruning, skip or page production inside the walk is conditional on the output directory. Rounds 3-4: the index is written before the pages of its directory; info-level logging census over the whole pipeline. Round 6: the file of -o mode holds exactly what stdout mode prints (write_to_file writes str(self)). Round 7: the page loop runs over the sorted file names themselves.", "DESIGN.md 5/C18"),
     "C20": ("purity effect analysis, template line-start analysis, indent plumbing terms, heading length domain, emission order",
             "All methods of rstwriter.py: serialisation methods are pure; every physical line of Paragraph/Field/RSTList/"
             "DirectiveHeading/Option starts with the element's indent; indents are get_indents(level) with level+1 inside "
             "directives and 3 spaces per level; heading lines have length |title|*|char| and are rebuilt by the title setter; "
-            "Directive.to_text emits heading, options, blank line iff content, content. Also: element values and directive arguments are serialised exactly as given. Round 3: the heading is the first element and no cached copy can come back (clear keeps document[0]). Round 4: a format specification between indent and text pads the line (C20-R3). Round 6: padding calls (.rjust/.ljust/.center/.zfill) in a line template.", "DESIGN.md 5/C20"),
+            "Directive.to_text emits heading, options, blank line iff content, content. Also: element values and directive arguments are serialised exactly as given. Round 3: the heading is the first element and no cached copy can come back (clear keeps document[0]). Round 4: a format specification between indent and text pads the line (C20-R3). Round 6: padding calls (.rjust/.ljust/.center/.zfill) in a line template. Round 7: the configured header character is used on every path; the option list is written by __init__ and option() only.", "DESIGN.md 5/C20"),
 }
 
 
@@ -59,7 +59,7 @@ CHECKS.update({
             "own directive, Paragraph only splits on '\\n' and prefixes, the cleaner's slices/strips have exactly the parameters the "
             "canonical form needs (indent from the closing line, lstrip set with '#' and no alnum/space, one guarded space), the input is "
             "decoded as UTF-8, doccomment tokens win over comment tokens and are non-greedy. Not decided: character-level result for "
-            "non-canonical doccomments. Also: every object carrying the doc text is attached to the entry list or the innermost open class; the module doc body is passed line for line. Rounds 4-5: a documented command is rejected only for an explained reason (arity, keyword in last position, missing class); a page is produced from the file on every call (no freshness shortcut). Round 6: accepted arities, index written before the pages, write_to_file writes str(self) unchanged.", "DESIGN.md 5/C01"),
+            "non-canonical doccomments. Also: every object carrying the doc text is attached to the entry list or the innermost open class; the module doc body is passed line for line. Rounds 4-5: a documented command is rejected only for an explained reason (arity, keyword in last position, missing class); a page is produced from the file on every call (no freshness shortcut). Round 6: accepted arities, index written before the pages, write_to_file writes str(self) unchanged. Round 7: every file's page is <out>/<dir>/<stem>.rst with the stem up to the last dot.", "DESIGN.md 5/C01"),
     "C02": ("typestate/effect table of the listener over a finite predicate abstraction (all command kinds x DOC/UNDOC x state atoms) vs protocol table; ATN grammar equivalence; render-term table",
             "Exhaustive over the abstraction: for every command kind, event shape and valuation of the atoms the callbacks consult, "
             "the entries appended, the pending-declaration slot and the consumed set behave as the property prescribes under default "
@@ -70,7 +70,7 @@ CHECKS.update({
             "Exhaustive over the abstraction and all flag valuations: one push per definition event on every non-error path, one pop per "
             "end command, cmake_parse_arguments marks index -1 only under non-emptiness and only a documenting element; name = arg0 "
             "unstripped, params = args[1:] through re.sub(kind's pattern), kwargs trigger in doc; '**kwargs' appended once, last, iff "
-            "has_kwargs. Regex semantics are not decided. Also: the signature reaches the text unmodified; no CLI default shadows the trigger/strip options; settings dataclasses are plain records. Round 3: entry methods that modify the entry are called from the render loop only ('**kwargs' once). Rounds 4-5: rules bind parameters by position and discover locals by what they are bound to (robust to renames).", "DESIGN.md 5/C03"),
+            "has_kwargs. Regex semantics are not decided. Also: the signature reaches the text unmodified; no CLI default shadows the trigger/strip options; settings dataclasses are plain records. Round 3: entry methods that modify the entry are called from the render loop only ('**kwargs' once). Rounds 4-5: rules bind parameters by position and discover locals by what they are bound to (robust to renames). Round 7: entry protocol of every command kind (documented end commands pop too).", "DESIGN.md 5/C03"),
     "C04": ("ATN action/language analysis of skipped tokens, position-taint lint, case-fold dominance, uniform-indent analysis",
             "Structural necessary conditions: exactly the four trivia rules end in `skip` on every accepting path and have the manual's "
             "languages; positions reach only logs/exceptions; every command-name read is case folded before use; the indent bound is one "
@@ -79,23 +79,23 @@ CHECKS.update({
             "Per-rule language equality (shortest counterexample printed) for identifier, unquoted, quoted, bracket (levels 0..3, "
             "thorough 0..5), escapes, comments, newline, space and the three parser rules; generated guards equal the ATN's FIRST sets; "
             "UTF-8 decode; runtime pin; no CRASH effect in the dispatch table (known finding: a command named generic_command). "
-            "Maximal-munch interplay and the CMake corpus are not decided. Also: every command-name read is case folded (CMake commands are case-insensitive) and processors apply no unguarded partial operation (re.match(...).group etc.) to argument text. Round 3: rendering is total; every raise of the listener is guarded by the current command's arguments; rejections depend on arity only. Rounds 4-5: accepted-arity table; .index()/min()/max() partial operations; no command kind raises at file level (both stacks empty). Round 6: definition-stack push/pop discipline (a balanced file never pops an empty stack).", "DESIGN.md 5/C05"),
+            "Maximal-munch interplay and the CMake corpus are not decided. Also: every command-name read is case folded (CMake commands are case-insensitive) and processors apply no unguarded partial operation (re.match(...).group etc.) to argument text. Round 3: rendering is total; every raise of the listener is guarded by the current command's arguments; rejections depend on arity only. Rounds 4-5: accepted-arity table; .index()/min()/max() partial operations; no command kind raises at file level (both stacks empty). Round 6: definition-stack push/pop discipline (a balanced file never pops an empty stack). Round 7: doccomment tokens bounded by their own delimiters; generic arguments bound in source order.", "DESIGN.md 5/C05"),
     "C07": ("receiver-ownership analysis of render emissions + template/indent analysis of rstwriter",
             "Nesting clause only: every emission of every entry kind has a receiver that descends from the one directive the entry "
             "created on the incoming writer, members are rendered on the class directive, all nested element lines start with the "
-            "indent, the heading is element 0 and the module entry is first. docutils validity is not decided. Also: the cleaner and the module callback preserve relative indentation of doc lines, and no option is emitted in a loop. Round 3: doc text starts its own block; members attach to the innermost class; no line break is introduced into a field/argument/option value. Round 4: set() values are bound by the argument-count partition (C07-R10), stdout mode prints exactly the page and info-level logging is confined to file mode across the pipeline (C07-R11), index written before the pages (C07-R12).", "DESIGN.md 5/C07"),
+            "indent, the heading is element 0 and the module entry is first. docutils validity is not decided. Also: the cleaner and the module callback preserve relative indentation of doc lines, and no option is emitted in a loop. Round 3: doc text starts its own block; members attach to the innermost class; no line break is introduced into a field/argument/option value. Round 4: set() values are bound by the argument-count partition (C07-R10), stdout mode prints exactly the page and info-level logging is confined to file mode across the pipeline (C07-R11), index written before the pages (C07-R12). Round 7: the optional space is removed uniformly; class members rendered from the member lists in order.", "DESIGN.md 5/C07"),
     "C08": ("include-flag independence on the effect table with symbolic flag atoms (covers all 2^10 valuations), flag/processor/YAML table agreement",
             "Exhaustive over the abstraction: effects of DOC(k) are equal under all flag valuations; UNDOC(k) with flag off only drops "
             "the entry/attachment and keeps the stacks balanced; no other flag is consulted. Known finding F8 (documented cpp_class with "
-            "its flag off pushes a None placeholder), pinned by two goldens. Also: later events address exactly the top of their stack (so placeholders shield documented entries), claiming an implementation is flag independent, and a member is rendered independently of its siblings. Rounds 4-5: unexplained rejections; what an entry shows is a function of its own kind and fields (C08-R7).", "DESIGN.md 5/C08"),
+            "its flag off pushes a None placeholder), pinned by two goldens. Also: later events address exactly the top of their stack (so placeholders shield documented entries), claiming an implementation is flag independent, and a member is rendered independently of its siblings. Rounds 4-5: unexplained rejections; what an entry shows is a function of its own kind and fields (C08-R7). Round 7: every doccomment-carrying command gets its own entry whatever preceded it; switch lookup independent of capitalisation.", "DESIGN.md 5/C08"),
     "C09": ("class-stack typestate from the effect table + binding terms + class render terms",
             "Exhaustive over the abstraction (default flags): push/pop/attach discipline, inner-class registration before push, claim of "
             "implementing definitions; field bindings of Method/Attribute/Class; render blocks use the same field in guard, heading "
-            "and loop, parameter i paired with type i, macro note iff is_macro, value option iff default. Thorough adds trace exploration. Also: :param:/:type: fields of a method are emitted independently; settings dataclasses are plain records. Round 3: members are never rejected by comparing their class argument with remembered state; list/field lines indented. Round 4: accepted-arity table for cpp_class/cpp_member/cpp_attr.",
+            "and loop, parameter i paired with type i, macro note iff is_macro, value option iff default. Thorough adds trace exploration. Also: :param:/:type: fields of a method are emitted independently; settings dataclasses are plain records. Round 3: members are never rejected by comparing their class argument with remembered state; list/field lines indented. Round 4: accepted-arity table for cpp_class/cpp_member/cpp_attr. Round 7: the macro note does not depend on how macro() is capitalised.",
             "DESIGN.md 5/C09"),
     "C10": ("interval partition of the argument count + binding terms + enum exhaustiveness of the rendering",
             "All argument counts (interval reasoning over len(args)), all VarType members: UNSET/STRING/LIST classification, quote "
-            "stripping of exactly one leading/trailing quote, list join by one space, option argument positions and 'OFF' default. Also: field values reach the text unmodified; set()/option() protocol rows. Rounds 4-5: accepted-arity table for set()/option(); every command-name read is case folded before it is compared or dispatched (C10-R7).",
+            "stripping of exactly one leading/trailing quote, list join by one space, option argument positions and 'OFF' default. Also: field values reach the text unmodified; set()/option() protocol rows. Rounds 4-5: accepted-arity table for set()/option(); every command-name read is case folded before it is compared or dispatched (C10-R7). Round 7: the lexer reads the file as it is on disk (no whole-file rewriting).",
             "DESIGN.md 5/C10"),
     "C11": ("keyword-scan loop summaries + value-filter lint + sibling clone diff + render terms",
             "All three processors: NAME/EXPECTFAIL scans have the prescribed guard and index, CMakeTest siblings are alpha-equal, the CTest "
@@ -105,16 +105,16 @@ CHECKS.update({
             "Structural: on every abstract path title and module are [ext-strip iff option off]([prefix+sep+] relpath|basename); no ABS "
             "label reaches a name; heading lines are |title|*|char| and rebuilt by the setter; exactly one default module entry at index 0 "
             "iff none exists; @module tokens cannot attach to a command; top-directory test compares with '.'. Injectivity of names is "
-            "not decided. Also: per-input isolation of the default prefix. Round 5: the default prefix depends on the input path and -p only; class-level lists are never written in place. Round 6: the module directive is named exactly like the module entry.", "DESIGN.md 5/C12"),
+            "not decided. Also: per-input isolation of the default prefix. Round 5: the default prefix depends on the input path and -p only; class-level lists are never written in place. Round 6: the module directive is named exactly like the module entry. Round 7: -p outranks a settings file (source order); index titles use the configured separator.", "DESIGN.md 5/C12"),
     "C16": ("call-order analysis on main(), argparse table vs template, three-way agreement template/dataclass/YAML, settings-construction dataflow",
             "Call order and tables: set_file < set_args(dots=True) < get(template), nothing set afterwards; dotted destinations are "
             "template paths with default None; keys and types agree three ways; exclude filters = all_contents() after validation; "
             "relative_to_config selects the Filename flavour; Settings built from the validated dict only. confuse's own precedence "
-            "and type rejection are trusted. Round 3: settings are deep-copied per input (the layered value is what every input sees). Round 4: the output-directory template is decided for both values of the flag on the evaluated template. Round 6: a list option must be validated by a template that rejects a plain string (F17, fixed); consumers read the option they are documented to read (own switch per kind, title/module options, every writer gets the settings in effect).", "DESIGN.md 5/C16"),
+            "and type rejection are trusted. Round 3: settings are deep-copied per input (the layered value is what every input sees). Round 4: the output-directory template is decided for both values of the flag on the evaluated template. Round 6: a list option must be validated by a template that rejects a plain string (F17, fixed); consumers read the option they are documented to read (own switch per kind, title/module options, every writer gets the settings in effect). Round 7: options read raw through all_contents() are validated by a template that rejects scalars; an explicitly empty prefix stays in effect.", "DESIGN.md 5/C16"),
     "C19": ("structural analysis of cmake/cminx.cmake (tokenizer + block matcher) and the package config template",
             "All statements of cminx_gen_rst: the executable runs unconditionally with COMMAND_ERROR_IS_FATAL, input and '-o' output "
             "quoted in place, options expanded unquoted, '-r' only under if(IS_DIRECTORY <input>) without else, ARGN forwarded "
-            "unfiltered, CMINX_EXECUTABLE defined before the include. CMake's list semantics for ';' are not decided. Also: no command rebinds the input/output formals. Round 3: execute_process carries no WORKING_DIRECTORY/TIMEOUT/INPUT_FILE; the options variable is evaluated on every path for directory and file inputs. Round 5: if main() returns a status, every launcher (src/main.py, frozen into the executable) passes it to sys.exit; a handler around document() re-raises or exits non-zero. Round 6: all option variables of COMMAND are evaluated together, ARGN forwarded exactly once on every path, if(ARGN) is not an acceptable guard; main() passes every positional input to document() as given.", "DESIGN.md 5/C19"),
+            "unfiltered, CMINX_EXECUTABLE defined before the include. CMake's list semantics for ';' are not decided. Also: no command rebinds the input/output formals. Round 3: execute_process carries no WORKING_DIRECTORY/TIMEOUT/INPUT_FILE; the options variable is evaluated on every path for directory and file inputs. Round 5: if main() returns a status, every launcher (src/main.py, frozen into the executable) passes it to sys.exit; a handler around document() re-raises or exits non-zero. Round 6: all option variables of COMMAND are evaluated together, ARGN forwarded exactly once on every path, if(ARGN) is not an acceptable guard; main() passes every positional input to document() as given. Round 7: cminx_gen_rst is a function (a macro re-evaluates its arguments).", "DESIGN.md 5/C19"),
 })
 
 NOT_APPLICABLE = {}
